@@ -35,3 +35,14 @@ def exp(ctx, x):
 
 
 __all__ = ['np_array', 'log', 'exp', 'math']
+
+
+def Q(ctx, x):
+    """a constant as the exact rational its literal denotes (symbolic mode) / the float (replay)"""
+    if ctx.is_sym():
+        from symx.expr import snap
+        return snap(x)
+    return x
+
+
+__all__.append('Q')
